@@ -243,6 +243,105 @@ fn odd_spellings() -> Vec<Case> {
     out
 }
 
+
+/// Imports that do not complete leave nothing behind.  (a) An import executed at the call-depth limit - the
+/// module body would be the 65th active call - is an IndexError `Stack overflow.` to the importing
+/// statement; caught there, the importer's own globals are what they were (also one named like a built-in),
+/// and the module can be imported afterwards from a shallower place: its body runs then, once.  The depth is
+/// swept from four below the limit to two above.  (b) A module whose body throws is not loaded: a handler
+/// around the import sees the thrown value; importing it again runs the body again (and fails again while
+/// the cause persists, succeeds once it is gone); what its body had imported successfully stays loaded.
+fn imports_that_do_not_complete() -> Vec<Case> {
+    let mut out = Vec::new();
+    let probe = |e: Expr| st(StmtKind::Try(vec![print_stmt(e)], Some(("err".into(), vec![print_stmt(call(var("type"), vec![var("err")]))])), None));
+    for depth in 59..=66usize {
+        for shadow in [false, true] {
+            let mut modules = BTreeMap::new();
+            modules.insert("deepm".to_string(), ModuleSource { program: Some(vec![print_stmt(s("load deepm")), var_stmt("name", s("deepm")), fn_stmt(func("f", &[], vec![st(StmtKind::Return(Some(var("name"))))]))]), compile_error: false });
+            let at_bottom = vec![
+                st(StmtKind::Try(
+                    vec![st(StmtKind::Import("deepm".into(), None)), print_stmt(invoke(var("deepm"), "f", vec![])), st(StmtKind::Return(Some(s("imported at the bottom"))))],
+                    Some(("e".into(), vec![print_stmt(call(var("type"), vec![var("e")])), print_stmt(get(var("e"), "context")), st(StmtKind::Return(Some(s("failed at the bottom"))))])),
+                    None,
+                )),
+            ];
+            let down = fn_stmt(func("down", &["n"], vec![st(StmtKind::If(bin(BinOp::Le, var("n"), num(1.0)), at_bottom, None)), st(StmtKind::Return(Some(call(var("down"), vec![bin(BinOp::Sub, var("n"), num(1.0))]))))]));
+            let mut main = Vec::new();
+            if shadow {
+                main.push(var_stmt("Vec", s("main's own Vec")));
+                main.push(var_stmt("print_count", num(0.0)));
+            }
+            main.push(down);
+            // `down(depth)` makes depth active calls below the script
+            main.push(print_stmt(call(var("down"), vec![num(depth as f64)])));
+            if shadow {
+                main.push(print_stmt(var("Vec")));
+            }
+            main.push(probe(call(var("type"), vec![Expr::VecLit(vec![])])));
+            // afterwards, from the top level
+            main.push(st(StmtKind::Import("deepm".into(), Some("again".into()))));
+            main.push(print_stmt(invoke(var("again"), "f", vec![])));
+            main.push(st(StmtKind::Import("deepm".into(), Some("third".into()))));
+            main.push(print_stmt(bin(BinOp::Eq, var("third"), var("again"))));
+            if shadow {
+                main.push(print_stmt(var("Vec")));
+            }
+            let mut c = Case::new("import_at_the_call_depth_limit", main);
+            c.modules = modules;
+            out.push(c);
+        }
+    }
+    // (b)
+    for place in 0..3usize {
+        let mut modules = BTreeMap::new();
+        modules.insert("cfg".to_string(), ModuleSource { program: Some(vec![print_stmt(s("load cfg")), var_stmt("fail", Expr::True)]), compile_error: false });
+        modules.insert(
+            "fragile".to_string(),
+            ModuleSource {
+                program: Some(vec![
+                    print_stmt(s("load fragile")),
+                    var_stmt("before", s("defined before the failure")),
+                    st(StmtKind::Import("cfg".into(), None)),
+                    st(StmtKind::If(get(var("cfg"), "fail"), vec![st(StmtKind::Throw(s("fragile failed")))], None)),
+                    var_stmt("after", s("defined after the check")),
+                    print_stmt(s("loaded fragile")),
+                ]),
+                compile_error: false,
+            },
+        );
+        modules.insert("wrapper".to_string(), ModuleSource { program: Some(vec![print_stmt(s("load wrapper")), st(StmtKind::Import("fragile".into(), None)), print_stmt(s("loaded wrapper"))]), compile_error: false });
+        let target = if place == 2 { "wrapper" } else { "fragile" };
+        let attempt = |label: &str| -> Stmt {
+            let imp = vec![st(StmtKind::Import(target.to_string(), Some("m".into()))), print_stmt(s(&format!("{}: imported", label))), st(StmtKind::Return(Some(var("m"))))];
+            let body = vec![st(StmtKind::Try(imp, Some(("e".into(), vec![print_stmt(Expr::Interp(vec![Part::Lit(format!("{}: failed with ", label)), Part::Expr(var("e"))])), st(StmtKind::Return(Some(Expr::Nil)))])), None))];
+            fn_stmt(func(&format!("attempt_{}", label), &[], body))
+        };
+        let mut main = vec![attempt("first"), attempt("second"), attempt("third"), attempt("fourth")];
+        let call_it = |label: &str| -> Expr { call(var(&format!("attempt_{}", label)), vec![]) };
+        if place == 1 {
+            // from inside a fiber
+            main.push(print_stmt(invoke(invoke(var("Fiber"), "new", vec![lambda_expr(&[], call_it("first"))]), "call", vec![])));
+        } else {
+            main.push(print_stmt(call_it("first")));
+        }
+        main.push(print_stmt(call_it("second")));
+        // the cause goes away
+        main.push(st(StmtKind::Import("cfg".into(), None)));
+        main.push(expr_stmt(set(var("cfg"), "fail", Expr::False)));
+        main.push(var_stmt("ok", call_it("third")));
+        main.push(probe(bin(BinOp::Ne, var("ok"), Expr::Nil)));
+        main.push(var_stmt("again", call_it("fourth")));
+        main.push(print_stmt(bin(BinOp::Eq, var("again"), var("ok"))));
+        if place != 2 {
+            main.push(probe(get(var("ok"), "after")));
+        }
+        let mut c = Case::new("module_whose_body_throws_is_not_loaded", main);
+        c.modules = modules;
+        out.push(c);
+    }
+    out
+}
+
 fn placements() -> Vec<Case> {
     let mut out = Vec::new();
     let mods = |extra: Vec<(&str, ModuleSource)>| -> BTreeMap<String, ModuleSource> {
@@ -660,7 +759,7 @@ pub fn run(ctx: &Ctx) -> Report {
     let graphs = (0..total).map(graph_case);
     // the deferred form needs main to import something: 3584 graphs
     let lazy = (0..total).filter(move |b| (b >> 9) != 0).map(lazy_graph_case);
-    let cases = placements().into_iter().chain(odd_spellings()).chain(lazy.collect::<Vec<_>>()).into_iter().chain(reimport_changes_nothing()).chain(crossings()).chain(fibers_from_other_modules()).chain(graphs);
+    let cases = placements().into_iter().chain(imports_that_do_not_complete()).chain(odd_spellings()).chain(lazy.collect::<Vec<_>>()).into_iter().chain(reimport_changes_nothing()).chain(crossings()).chain(fibers_from_other_modules()).chain(graphs);
     let hooks = Hooks {
         attribute: &|_c, _m, _o, _mm| None,
         nontrivial: &|c, m| c.modules.len() >= 2 && m.out.iter().filter(|l| l.starts_with("load ")).count() >= 2 || m.out.iter().any(|l| l.contains("failed")) || matches!(m.outcome, Outcome::Uncaught(_)),
@@ -670,7 +769,7 @@ pub fn run(ctx: &Ctx) -> Report {
     mcheck::fill_report(
         &mut report,
         &stats,
-        "every import graph over {main, a, b, c}: each of the 6 module-to-module edges, 3 self-loops and 3 edges from main independently present or absent (4096 graphs); every import inside a module sits in its own try/catch and is followed by a use; every module prints when its body runs, defines the same global names, and reads every one of the 30 built-in names; main reads, writes and calls through each module object, imports it again under an alias and compares identity, and probes that nothing leaked. The same graphs with every module-to-module import deferred into a function `late` of the importing module, which main calls three times after loading (the 3584 graphs in which main imports something): no import meets a module still loading, every body runs once, cycles and self-imports bind the one module object, renamings by main are seen through every import. Plus placements: import inside a function called 0/1/2 times, missing and uncompilable modules (caught, uncaught, aliased), a path with a directory, two modules of the same file name in different directories (one a global of main, the other imported without an alias inside a function / block / loop body / lambda), a three-module cycle; six spellings of a path that are not in a cleaned-up form (leading `./`, doubled separators, `.` components, served by the module table under both forms): the same spelling imported again at top level, in a function and from another module is the one module, loaded once, and a cycle written with such spellings is an ImportError. Plus 48 sequences of three or four programs on one interpreter (a module loaded by the first program - which ends normally or with one of five uncaught errors, optionally followed by a program that does not compile - is still loaded, with its state, for the next programs, imported at top level, in a function, through another module, under an alias). Plus `reimport_changes_nothing`: a module that defines globals under names built-ins also have and receives attributes from outside, imported again in every ordered pair of six ways (alias, same name, in a function, in a fiber, in try, through another module) with the module's and the importer's view printed after each. Plus exceptions that cross module frames: a module body that throws / imports a missing, an uncompilable, its importing (cycle) or a throwing module without a handler, or a function of another module that throws / fails an import / throws through its own finally; caught in the importer (main or a module) directly, through a function, or after a finally block that itself uses globals; straight after the handler the importer reads, defines and assigns its own globals and the check confirms where they landed. Plus fibers whose code lives in another module (made by a function of that module, stored in it, or built here from its function), run to their end from main or from a module that then uses its own globals at once. non-trivial = at least two module bodies ran, or an import failed.",
+        "every import graph over {main, a, b, c}: each of the 6 module-to-module edges, 3 self-loops and 3 edges from main independently present or absent (4096 graphs); every import inside a module sits in its own try/catch and is followed by a use; every module prints when its body runs, defines the same global names, and reads every one of the 30 built-in names; main reads, writes and calls through each module object, imports it again under an alias and compares identity, and probes that nothing leaked. The same graphs with every module-to-module import deferred into a function `late` of the importing module, which main calls three times after loading (the 3584 graphs in which main imports something): no import meets a module still loading, every body runs once, cycles and self-imports bind the one module object, renamings by main are seen through every import. Plus placements: import inside a function called 0/1/2 times, missing and uncompilable modules (caught, uncaught, aliased), a path with a directory, two modules of the same file name in different directories (one a global of main, the other imported without an alias inside a function / block / loop body / lambda), a three-module cycle; six spellings of a path that are not in a cleaned-up form (leading `./`, doubled separators, `.` components, served by the module table under both forms): the same spelling imported again at top level, in a function and from another module is the one module, loaded once, and a cycle written with such spellings is an ImportError; imports that do not complete: an import with 59..66 calls active (the module body would be the 65th: IndexError to the importing statement, the importer's globals - also one named like a built-in - untouched, the module importable afterwards) and a module whose body throws while a condition holds (every attempt runs the body again, the first attempt after the condition is gone loads it, once; directly, from a fiber, through a wrapper module). Plus 48 sequences of three or four programs on one interpreter (a module loaded by the first program - which ends normally or with one of five uncaught errors, optionally followed by a program that does not compile - is still loaded, with its state, for the next programs, imported at top level, in a function, through another module, under an alias). Plus `reimport_changes_nothing`: a module that defines globals under names built-ins also have and receives attributes from outside, imported again in every ordered pair of six ways (alias, same name, in a function, in a fiber, in try, through another module) with the module's and the importer's view printed after each. Plus exceptions that cross module frames: a module body that throws / imports a missing, an uncompilable, its importing (cycle) or a throwing module without a handler, or a function of another module that throws / fails an import / throws through its own finally; caught in the importer (main or a module) directly, through a function, or after a finally block that itself uses globals; straight after the handler the importer reads, defines and assigns its own globals and the check confirms where they landed. Plus fibers whose code lives in another module (made by a function of that module, stored in it, or built here from its function), run to their end from main or from a module that then uses its own globals at once. non-trivial = at least two module bodies ran, or an import failed.",
         json!({"modules": 4, "graphs": total}),
     );
     // several programs on one interpreter
@@ -679,7 +778,7 @@ pub fn run(ctx: &Ctx) -> Report {
     let xs = crate::expect::run_expect(ctx, &ctx.runner_checked, across.into_iter(), &|_e, _r| None, &|_e, _p| None);
     report.cov("programs_sequences_on_one_interpreter", json!(n_across));
     report.violations.extend(xs.violations);
-    report.assumptions = vec!["importing a module again after its body threw is outside the property's statement and outside the alphabet (X)".into()];
+    report.assumptions = vec!["a module whose top-level code did not run to its end is not loaded: a later import of the same path runs the code again (DESIGN 11.3, KF-C14-F3)".into()];
     record_known(&mut report, &active, &stats.attributed);
     report.violations.extend(stats.violations);
     report
